@@ -116,6 +116,18 @@ func c19Materialise(dir string, entries []DirEntry, onlyGood map[string]bool) er
 				return err
 			}
 			os.WriteFile(filepath.Join(p, "inner"), c19GoodFeed(0, 0), 0o644)
+			// the sub-directory holds parseable files named like its siblings (an archive of older copies, say),
+			// also one level further down: none of them is an entry of the directory
+			os.Mkdir(filepath.Join(p, "older"), 0o755)
+			for k, sib := range entries {
+				if k >= 8 {
+					break
+				}
+				if sib.Kind != "subdir" && filepath.Base(sib.Name) == sib.Name {
+					os.WriteFile(filepath.Join(p, sib.Name), c19GoodFeed(40+k, 1), 0o644)
+					os.WriteFile(filepath.Join(p, "older", sib.Name), c19GoodFeed(80+k, 2), 0o644)
+				}
+			}
 		case "dangling-symlink":
 			if err := os.Symlink(filepath.Join(dir, "does-not-exist-"+e.Name), p); err != nil {
 				return err
